@@ -364,6 +364,11 @@ pub const KF_MERGE_HEADS: &str = "kf:cycle-heads-merged-with-different-iteration
 /// and pulls the outer value down again; salsa gives up with "too many cycle iterations" although
 /// the least fixpoint exists (also on a fresh database, first request).
 pub const KF_OSCILLATION: &str = "kf:monotone-cycle-with-value-dependent-call-order-does-not-converge";
+/// Listed finding cyc-kf7: salsa's own assertion `provisional_status.is_provisional()`
+/// (execute.rs: "a query should only ever depend on other heads that are provisional ... it wasn't
+/// executed in the last iteration of said cycle") fires on one thread for a program with
+/// value-dependent dependencies after an input change. Same assertion as c18-kf2 (several threads).
+pub const KF_NOT_IN_LAST_ITERATION: &str = "kf:member-not-executed-in-last-iteration-assertion";
 pub const KF_ABANDONED: &str = "kf:provisional-member-of-vanished-cycle-accepted-as-final";
 
 
@@ -564,6 +569,9 @@ impl Oracle for CycKf {
                 {
                     x.rule = KF_BACKDATE_CYCLE.to_string();
                     self.backdate_hits += 1;
+                    self.backdate_rev = Some(cx.rev);
+                } else if x.rule == "unexpected-panic" && x.detail.contains("provisional_status.is_provisional()") && value_dependent(prog) {
+                    x.rule = KF_NOT_IN_LAST_ITERATION.to_string();
                     self.backdate_rev = Some(cx.rev);
                 } else if x.rule == "unexpected-panic" && x.detail.contains("too many cycle iterations") && value_dependent(prog) {
                     x.rule = KF_OSCILLATION.to_string();
